@@ -72,24 +72,26 @@ Theorem C10_I_from_str_radix_reject :
 Proof. exact I_from_str_radix_reject. Qed.
 Print Assumptions C10_I_from_str_radix_reject.
 
-(* ---- digit slices: Some(v) iff every digit is below the radix and the Horner value fits ---- *)
+(* ---- digit slices: Some(v) iff every digit is below the radix and the Horner value fits.
+        Radix 256 goes through the local minimal model of from_be_slice / from_le_slice
+        (Model/Parse.v; the faithful model of src/buint/endian.rs is property C15's). ---- *)
 Theorem C10_from_radix_be :
   U_overflowing_add_spec ->
   forall dbg w n ds r,
-  0 < w -> w mod 8 = 0 -> (0 < n)%nat -> 2 <= r < 256 -> bytes ds ->
+  0 < w -> w mod 8 = 0 -> (0 < n)%nat -> 2 <= r <= 256 -> bytes ds ->
   U_from_radix_be dbg w n ds r =
     POk (if digits_below r ds && (horner r ds <? Mod w n) then Some (digits_of w n (horner r ds)) else None).
-Proof. exact U_from_radix_be_spec. Qed.
+Proof. exact U_from_radix_be_full. Qed.
 Print Assumptions C10_from_radix_be.
 
 Theorem C10_from_radix_le :
   U_overflowing_add_spec ->
   forall dbg w n ds r,
-  0 < w -> w mod 8 = 0 -> (0 < n)%nat -> 2 <= r < 256 -> bytes ds ->
+  0 < w -> w mod 8 = 0 -> (0 < n)%nat -> 2 <= r <= 256 -> bytes ds ->
   U_from_radix_le dbg w n ds r =
     POk (if digits_below r (rev ds) && (horner r (rev ds) <? Mod w n)
          then Some (digits_of w n (horner r (rev ds))) else None).
-Proof. exact U_from_radix_le_spec. Qed.
+Proof. exact U_from_radix_le_full. Qed.
 Print Assumptions C10_from_radix_le.
 
 (* BInt::from_radix_be/le are the unsigned functions followed by from_bits (identity on the digits) *)
